@@ -222,7 +222,7 @@ func cmdDev(args []string) int {
 	}
 	axioms := programAxioms(prog)
 	t0 := time.Now()
-	prog.discharge(obls, axioms, solveOpts{timeout: time.Duration(*timeout) * time.Second, dir: dir, jobs: 16})
+	prog.discharge(obls, axioms, solveOpts{timeout: time.Duration(*timeout) * time.Second, dir: dir, jobs: solverJobs()})
 	bad := 0
 	for i, o := range obls {
 		ok := oblOK(o)
@@ -320,7 +320,7 @@ func cmdCheck(args []string) int {
 			}
 		}
 	}
-	prog.discharge(rr.obls, axioms, solveOpts{timeout: timeout, dir: tmp, jobs: 16})
+	prog.discharge(rr.obls, axioms, solveOpts{timeout: timeout, dir: tmp, jobs: solverJobs()})
 
 	// known findings: re-verify functions that carry assume-known-finding without the restriction
 	var kfLines []string
@@ -341,7 +341,7 @@ func cmdCheck(args []string) int {
 	var kfObls []*Obligation
 	if len(kfFuncs) > 0 {
 		rr2 := verifyFunctions(prog, kfFuncs, true)
-		prog.discharge(rr2.obls, axioms, solveOpts{timeout: timeout, dir: filepath.Join(tmp, "kf"), jobs: 16})
+		prog.discharge(rr2.obls, axioms, solveOpts{timeout: timeout, dir: filepath.Join(tmp, "kf"), jobs: solverJobs()})
 		kfObls = rr2.obls
 		reported := map[string]bool{}
 		for _, o := range rr2.obls {
